@@ -31,7 +31,7 @@ REQS = [
     ('en-GB', '\\begin{enumerate}\\item Wabgq \\begin{enumerate}\\item Wabhq\n', {}),
     ('en-GB', '\\item Wabiq\n', {'disabledCategories': 'CAT'}),
 ]
-PLAN = {'mode': 'flag_words', 'words': ['W']}
+SRV_ARGS = ['--lt-options', '~--disable SRVRULE --enable SRVON --zzopt', '--single-letters', 'a|I']
 _ref = {}
 
 
@@ -61,7 +61,7 @@ def ask(server, i):
 
 def reference(i):
     if i not in _ref:
-        s = Server(workdir())
+        s = Server(workdir(), SRV_ARGS)
         if not s.start():
             raise RuntimeError('cannot start server')
         try:
@@ -78,7 +78,7 @@ LAST = []
 class ServerHistory(RuleBasedStateMachine):
     def __init__(self):
         super().__init__()
-        self.s = Server(workdir())
+        self.s = Server(workdir(), SRV_ARGS)
         if not self.s.start():
             raise RuntimeError('cannot start server')
         self.seq = []
@@ -108,7 +108,7 @@ class ServerHistory(RuleBasedStateMachine):
 
 
 def replay(case):
-    s = Server(workdir())
+    s = Server(workdir(), SRV_ARGS)
     if not s.start():
         return Violation('harness', case, 'cannot start server')
     done = []
